@@ -34,7 +34,7 @@ def run(m, chk):
         "weights of both operands; the ValueError interval test of KnotVector.split precedes the asserting heavy layer; no divisor on the split path is a bare node parameter (cut at 0). "
         "Equality of each piece with the original and the junction multiplicity are not decided."
     )
-    chk.decides = ["MEMO-KEY (no function on the path is memoised by the value of numbers / knot vectors)", "PURE/FRESH(split, |)", "DEP-MUST weights of the pieces / of the joined curve", "GATE(max(A) = min(B))", "X-ASSERT(split)", "D", 'INTERVAL (pieces / join built on the operand knot values)', 'MULT-KEEP', 'DEP-MAY(pieces depend on the weights)', 'ELEM-COVER (the join reads the first control point of the right operand)', 'CLEAN-JUNCTION (every joined curve passes through knot_clean at the junction)']
+    chk.decides = ["JOIN-HOMOG (both sides of the junction are scaled alike, so the weight function can be continuous there)", "MEMO-KEY (no function on the path is memoised by the value of numbers / knot vectors)", "PURE/FRESH(split, |)", "DEP-MUST weights of the pieces / of the joined curve", "GATE(max(A) = min(B))", "X-ASSERT(split)", "D", 'INTERVAL (pieces / join built on the operand knot values)', 'MULT-KEEP', 'DEP-MAY(pieces depend on the weights)', 'ELEM-COVER (the join reads the first control point of the right operand)', 'CLEAN-JUNCTION (every joined curve passes through knot_clean at the junction)']
     chk.not_decided = ["each piece equals the original on its sub-interval", "that knot_clean reaches the minimal junction multiplicity (C14)"]
     r.pure("PURE", SPLIT, ["self", "nodes"])
     r.fresh_result("FRESH", SPLIT)
@@ -157,3 +157,6 @@ def run(m, chk):
 
     nm = memo_key(r, chk, entries=['curves.Curve.split', 'curves.BaseCurve.__or__'])
     chk.floor("MEMO-KEY", "functions reachable from the entry points examined for value-keyed memoisation", nm, 3)
+    from .homog import join_homog
+
+    join_homog(r, chk, OR)
